@@ -22,7 +22,7 @@ META = dict(
                  'the free-space guard (shutil.disk_usage) stays silent: the scratch file system has more than 5 GiB free (checked at start, otherwise the check reports a harness error)',
                  'kill points are "after the k-th store" of a child process that ends with os._exit (no destructors run); a kill *inside* a store or at a random instant depends on SQLite '
                  'transaction atomicity, which is not encoded (not applicable part)'],
-    bounds=dict(quick='n = 3 examples; all access subsets, all reuse/clear combinations, both release orders, kill after k = 0..3 stores', thorough='same, plus 2-access histories with negative indices'),
+    bounds=dict(quick='n = 3 examples; all access subsets, all reuse/clear combinations, both release orders, every fill order (also by negative index), kill after k = 0..3 stores', thorough='same, plus 2-access histories with negative indices'),
     outside=['kill inside a store / at random instants', 'concurrent writers'],
 )
 
@@ -161,6 +161,42 @@ def run_share(clear, order, acc_after):
         shutil.rmtree(d, ignore_errors=True)
 
 
+PERMS = [list(x) for x in __import__('itertools').permutations(range(N))]
+
+
+def run_order(perm, neg):
+    """the cache is filled by index accesses in an arbitrary order (optionally through negative indices); afterwards iteration, items(), a copy
+    and a reopened dataset all serve every example at its own position, without recomputation"""
+    import warnings
+    warnings.simplefilter('ignore')
+    d = _scratch()
+    try:
+        up = Upstream()
+        ds = _pipeline(up).diskcache(cache_dir=d, reuse=False, clear=False)
+        for i in perm:
+            if ds[i - N if neg else i] != _want(i):
+                return False
+        want = [_want(i) for i in range(N)]
+        if list(ds) != want or list(ds.copy()) != want or [v for _, v in ds.items()] != want or [k for k, _ in ds.items()] != [f'k{i}' for i in range(N)]:
+            return False
+        if up.calls != [1] * N:
+            return False
+        del ds
+        gc.collect()
+        up2 = Upstream()
+        ds2 = _pipeline(up2).diskcache(cache_dir=d, reuse=True, clear=True)
+        if list(ds2) != want or [ds2[i] for i in range(N)] != want or list(ds2[::-1]) != want[::-1]:
+            return False
+        if up2.calls != [0] * N:
+            return False
+        del ds2
+        gc.collect()
+        return not os.path.isdir(d)
+    finally:
+        gc.collect()
+        shutil.rmtree(d, ignore_errors=True)
+
+
 CHILD = r'''
 import os, sys
 sys.path[:0] = [{repo!r}, {verif!r}]
@@ -233,6 +269,18 @@ def body_kill(k):
     return ok
 
 
+def body_order(neg, pid):
+    rt.assume(0 <= pid)
+    rt.assume(pid < len(PERMS))
+    k = 0
+    while k < len(PERMS) - 1 and k != pid:
+        k += 1
+    with _untraced():
+        ok = run_order(PERMS[k], neg)
+    rt.reached()
+    return ok
+
+
 def validate(tier):
     """environment precondition of the free-space guard"""
     free = shutil.disk_usage(os.environ.get('VERIF_WORK') or '/var/tmp').free
@@ -246,5 +294,7 @@ FAMILIES = [
            timeout=dict(quick=120, thorough=300), path_timeout=60, desc='open / access subset / release / reopen with every reuse-clear combination'),
     Family('share', body_share, ['clear'], [('order', 'bool'), ('i', 'int')], lambda tier, seed: [(False,), (True,)], timeout=120, path_timeout=60,
            desc='copies share the cache; the directory is removed with the last sharer iff clear'),
+    Family('order', body_order, ['neg'], [('pid', 'int')], lambda tier, seed: [(False,), (True,)], timeout=180, path_timeout=90,
+           desc='cache filled by index accesses in every order; iteration, items(), copy and a reopened dataset stay aligned'),
     Family('kill', body_kill, [], [('k', 'int')], lambda tier, seed: [()], timeout=180, path_timeout=90, desc='writer killed after its k-th store, then reuse'),
 ]
